@@ -5,9 +5,11 @@ import GridVerif.Gen.Becke
 import GridVerif.Model.BeckePy
 import GridVerif.Gen.BeckeRoutes
 import GridVerif.Gen.Hirshfeld
+import GridVerif.Model.CovRadiiPy
+import GridVerif.Gen.CovRadii
 
 namespace GridVerif.Driver.C06
-open GridVerif.Proto GridVerif.Becke GridVerif.Gen.Becke GridVerif.BeckePy
+open GridVerif.Proto GridVerif.Becke GridVerif.Gen.Becke GridVerif.BeckePy GridVerif.CovRadiiPy
 
 def showErr : Err → String
   | .valueError => "value-error"
@@ -107,7 +109,28 @@ def routeOf : String → Option (Route Float)
 def showTrace (t : List (Nat × Nat × List Int)) : String :=
   String.intercalate " " (toString t.length :: t.map fun (b, n, ind) => s!"{b} {n} {sInts ind}")
 
+/-- a regenerated covalent-radius table as floats (`none` = nan). -/
+def covTableF (t : List (Option (Nat × Nat))) : List Float :=
+  t.map fun e => match e with
+    | some pq => Float.ofNat pq.1 / Float.ofNat pq.2
+    | none => 0.0 / 0.0
+
 def handle : List String → Option String
+  -- generated `grid.utils.get_cov_radii`: `cov_type` as character codes (`d` = omitted), then `i n` (scalar) or `s vec` (sequence)
+  | "C06.covradii" :: rest => do
+    let (ty, rest) ← (match rest with
+      | "d" :: tl => pure (Gen.CovRadii.covTypeDefault, tl)          -- `cov_type` not passed: the generated default
+      | _ => do
+        let (cs, tl) ← pVec pNat rest
+        pure (String.ofList (cs.map Char.ofNat), tl))
+    let arg ← (match rest with
+      | ["i", n] => do let n ← pInt n; pure (CovArg.int n)
+      | "s" :: tl => do
+        let (l, tl) ← pVec pInt tl
+        if tl ≠ [] then none else pure (CovArg.seq l)
+      | _ => none)
+    pure (showRes (Gen.CovRadii.get_cov_radii (covTableF Gen.CovRadii.bragg) (covTableF Gen.CovRadii.cambridge)
+      (covTableF Gen.CovRadii.alvarez) arg ty))
   -- generated formulas (translator self-check)
   | ["C06.switch", x, order] => do
     let x ← pFloat x; let n ← pNat order
